@@ -12,6 +12,8 @@ META = {
             "{2,3,4,8,32, > n}; weight functions: piecewise-constant dyadic (exact), 1/(1+d), inverse-distance 1/d**2 "
             "(singular at 0), Gaussian with scalar or per-channel sigmas; data: single / multi channel, masked, constant "
             "fields, and one variant per pair in a memory layout that is not C-contiguous (Fortran order, transposed / strided / reversed view). "
+            "Integer data (uint8, int8, int16, uint16, int32) at / near the top of the dtype's range, spread over it, near its bottom, through gauss / custom with "
+            "fill_value=None against the brute-force oracle (a location with neighbours in range is not masked; means equal to the dtype maximum left out). "
             "Each real output element is compared (1e-9 rel.) with the model's weighted mean over the real "
             "neighbour info and with a brute-force k-nearest oracle. Non-trivial: some target has between 1 and k-1 "
             "neighbours in range, or >= 2 channels with different weight functions. Distinct = distinct canonical input.",
@@ -328,6 +330,140 @@ def suite_no_neighbour_locations(ctx):
                                  tags={"cause": "no-neighbour-location"}, size=n_src)
 
 
+INT_DTYPES = (np.uint8, np.int16, np.int32, np.uint16, np.int8)
+
+
+def suite_integer_data_near_dtype_max(ctx):
+    """integer data whose values sit at / near the top of their dtype's range (a saturated detector, counts close to the largest code, large int32
+    values) through resample_gauss / resample_custom with fill_value=None and k > 1.  The statement does not depend on the dtype: a location with
+    neighbours in range carries sum(w*x)/sum(w) over them - it is not masked - and only locations without a neighbour are masked.  Oracle: brute force
+    over all source x target chord distances (k nearest valid sources within the radius, weights by calling the weight function on those distances).
+    Locations whose weighted mean is within 1e-9 (relative) of the dtype's maximum are left out: with fill_value=None the library marks empty locations with
+    that number, so a mean equal to it cannot be told from "no neighbour" (counted, not compared).  Control patterns: values spread over the whole
+    range, values near the bottom of the range."""
+    from pyresample import kd_tree
+    r = ctx.rng
+    wf = _wfuncs(r)
+    n_pairs = 8 if ctx.quick else 60
+    lim = (80, 60) if ctx.quick else (250, 200)
+    done = tries = 0
+    while done < n_pairs and tries < 40 * n_pairs:
+        tries += 1
+        src, tgt, radius, desc = kc.geometry_pair(r, *lim)
+        if radius == 0.0:
+            radius = 1000.0
+        slo, sla = kc.lonlats(src)
+        tlo, tla = kc.lonlats(tgt)
+        d, sv, tv = kc.dist_matrix(slo.ravel(), sla.ravel(), tlo.ravel(), tla.ravel())
+        n_src, n_tgt = d.shape[1], d.shape[0]
+        in_range = (d <= radius).sum(axis=1)
+        if not (in_range >= 2).any():
+            continue            # no location with more than one neighbour: nothing is averaged
+        done += 1
+        k = r.choice([2, 3, 4, 8, 32])
+        order = np.argsort(d, axis=1, kind="stable")
+        g = np.random.default_rng(r.getrandbits(32))
+        geo = {"source": kc.describe(src), "target": kc.describe(tgt)}
+        for dtype in r.sample(INT_DTYPES, 2 if ctx.quick else 4):
+            info = np.iinfo(dtype)
+            top = int(info.max)
+            for pattern in ("saturated", "near_top", r.choice(["spread", "near_bottom"])):
+                if pattern == "saturated":          # everything at the largest code, a quarter of the pixels 1..3 counts darker
+                    vals = np.full(n_src, top, dtype=np.int64)
+                    dark = g.random(n_src) < 0.25
+                    vals[dark] -= g.integers(1, 4, size=int(dark.sum()))
+                elif pattern == "near_top":         # within a small fraction of the range below the largest code
+                    span = max(4, int((top - int(info.min)) * r.choice([1e-5, 1e-4, 1e-2])))
+                    vals = top - g.integers(0, span + 1, size=n_src)
+                elif pattern == "spread":
+                    vals = g.integers(int(info.min), top + 1, size=n_src)
+                else:
+                    vals = int(info.min) + g.integers(0, 5, size=n_src)
+                nch = r.choice([0, 0, 2])
+                if nch:
+                    vals = np.stack([vals, np.where(g.random(n_src) < 0.5, vals, top)], axis=-1)
+                data = vals.astype(dtype).reshape(tuple(src.shape) + ((nch,) if nch else ()))
+                assert np.array_equal(data.reshape(vals.shape).astype(np.int64), vals)
+                which = r.choice(["gauss", "custom"])
+                with_uncert = r.random() < 0.3
+                if which == "gauss":
+                    sig = [float(radius) * r.choice([0.3, 1.0, 3.0]) for _ in range(max(nch, 1))]
+                    fnames = [f"gauss(sigma={s_:.6g})" for s_ in sig]
+                    funcs = [(lambda dd, s_=s_: np.exp(-dd ** 2 / s_ ** 2)) for s_ in sig]
+                else:
+                    fnames = [r.choice(["soft", "lin"]) for _ in range(max(nch, 1))]
+                    funcs = [wf[f] for f in fnames]
+                inp = {"pair": desc, "n_src": int(n_src), "n_tgt": int(n_tgt), "radius": float(radius), "k": int(k), "dtype": np.dtype(dtype).name,
+                       "pattern": pattern, "channels": nch, "type": which, "weight_funcs": fnames, "with_uncert": with_uncert, "fill_value": None}
+                site = "kd_tree.resample_" + which
+                try:
+                    with warnings.catch_warnings(), np.errstate(all="ignore"):
+                        warnings.simplefilter("ignore")
+                        if which == "gauss":
+                            out = kd_tree.resample_gauss(src, data, tgt, radius, sig if nch else sig[0], neighbours=k, epsilon=0, fill_value=None,
+                                                         reduce_data=False, segments=1, with_uncert=with_uncert)
+                        else:
+                            out = kd_tree.resample_custom(src, data, tgt, radius, funcs if nch else funcs[0], neighbours=k, epsilon=0, fill_value=None,
+                                                          reduce_data=False, segments=1, with_uncert=with_uncert)
+                except Exception as e:  # noqa
+                    ctx.fail(site, f"raised {type(e).__name__}: {str(e)[:150]}", inp, tags={"cause": "raises"}, size=n_src + n_tgt)
+                    continue
+                res = out[0] if with_uncert else out
+                shape = tuple(tgt.shape) + ((nch,) if nch else ())
+                if tuple(res.shape) != shape:
+                    ctx.fail(site, "output shape is not the target's shape (+channels)", inp, list(res.shape), size=5)
+                    continue
+                Rv = np.ma.getdata(res).astype(float).reshape(n_tgt, max(nch, 1))
+                RM = np.ma.getmaskarray(res).reshape(n_tgt, max(nch, 1))
+                D = vals.reshape(n_src, max(nch, 1)).astype(float)
+                averaged = 0
+                failed = False
+                for j in range(n_tgt):
+                    near = order[j][:k + 1]
+                    within = [s_ for s_ in near if d[j, s_] <= radius]
+                    tie = len(within) > k and abs(d[j, within[k]] - d[j, within[k - 1]]) <= 1e-9 * max(1.0, d[j, within[k - 1]])
+                    nearthr = any(abs(d[j, s_] - radius) <= 1e-9 * max(1.0, radius) for s_ in near if np.isfinite(d[j, s_]))
+                    if tie or nearthr:
+                        ctx.count("int_near_max.skipped.tie_or_threshold")
+                        continue
+                    contrib = within[:k]
+                    for c in range(max(nch, 1)):
+                        wb = np.asarray(funcs[c](d[j, contrib]), float) * np.ones(len(contrib)) if contrib else np.array([])
+                        norm = float(wb.sum()) if contrib else 0.0
+                        loc = {**inp, "target_index": int(j), "channel": c}
+                        if not norm > 0:
+                            if not RM[j, c]:
+                                ctx.fail(site, "location without any neighbour of positive weight in range is not masked (fill_value=None)", {**loc, **geo},
+                                         {"got": float(Rv[j, c])}, tags={"kind": "not-masked", "dtype": np.dtype(dtype).name}, size=n_src + n_tgt)
+                                failed = True
+                                break
+                            continue
+                        want = float((wb * D[contrib, c]).sum() / norm)
+                        if top - want <= REL * max(1.0, float(top)):
+                            ctx.count("int_near_max.left_out.mean_equals_dtype_max")
+                            continue
+                        if len(contrib) >= 2:
+                            averaged += 1
+                        observed = {"neighbours": len(contrib), "expected": want, "dtype_max": top, "values": [int(v) for v in D[contrib, c]],
+                                    "weights": [float(v) for v in wb], "distances": [float(v) for v in d[j, contrib]]}
+                        if RM[j, c]:
+                            ctx.fail(site, f"{np.dtype(dtype).name} data, fill_value=None: a location with {len(contrib)} neighbour(s) in range is masked instead of "
+                                     f"carrying their weighted mean {want!r} (which is not the dtype's maximum {top})", {**loc, **geo}, observed,
+                                     tags={"kind": "filled", "dtype": np.dtype(dtype).name}, size=n_src + n_tgt)
+                            failed = True
+                            break
+                        if not _close(float(Rv[j, c]), want):
+                            ctx.fail(site, f"{np.dtype(dtype).name} data: value is not sum(w*x)/sum(w) over the nearest neighbours in range", {**loc, **geo},
+                                     {**observed, "got": float(Rv[j, c])}, tags={"kind": "value", "dtype": np.dtype(dtype).name}, size=n_src + n_tgt)
+                            failed = True
+                            break
+                    if failed:
+                        break
+                ctx.count(f"int_near_max.{np.dtype(dtype).name}.{pattern}")
+                ctx.case("int_near_max", (desc, np.dtype(dtype).name, pattern, which, str(fnames), k, nch, with_uncert), nontrivial=averaged > 0,
+                         sample={"input": inp, "locations_averaging_2_or_more": averaged} if pattern == "near_top" else None)
+
+
 def run(ctx):
     suite_no_neighbour_locations(ctx)
     n = 40 if ctx.quick else 400
@@ -338,3 +474,4 @@ def run(ctx):
             radius = 1000.0
         check(ctx, src, tgt, radius, desc)
         ctx.count("pairs")
+    suite_integer_data_near_dtype_max(ctx)
